@@ -98,6 +98,7 @@ func (*Watermark).UpdateEventTime
   modifies wm.lastEventTime, wm.maxEventTime, wm.currentWatermark, wm.lastSentWatermark, ghost(sends)
   ensures monotone: wm.currentWatermark >= old(wm.currentWatermark)
   ensures max-monotone: zero(old(wm.maxEventTime)) || wm.maxEventTime >= old(wm.maxEventTime)
+  ensures every-arriving-event-counts-as-source-activity-whether-or-not-it-raises-the-maximum: wm.lastEventTime >= old(now()) && wm.lastEventTime <= now()
   ensures future-ignored: eventTime > now() + wm.maxOutOfOrderness + 86400000000000 ==> wm.maxEventTime == old(wm.maxEventTime) && wm.currentWatermark == old(wm.currentWatermark)
   ensures accepted: eventTime <= now() + wm.maxOutOfOrderness + 86400000000000 && (zero(old(wm.maxEventTime)) || eventTime > old(wm.maxEventTime)) ==> wm.maxEventTime == eventTime && wm.currentWatermark == ite(eventTime - wm.maxOutOfOrderness > old(wm.currentWatermark), eventTime - wm.maxOutOfOrderness, old(wm.currentWatermark))
   ensures not-newer: !zero(old(wm.maxEventTime)) && eventTime <= old(wm.maxEventTime) ==> wm.maxEventTime == old(wm.maxEventTime) && wm.currentWatermark == old(wm.currentWatermark)
@@ -627,6 +628,7 @@ func normalizeTriggerPredicate
 func normalizeField
   props C17 C04 C12
   option pure
+  ensures the-comparison-key-is-the-field-lower-cased-and-trimmed-whole-an-empty-field-means-star: result == ite(strings.TrimSpace(strings.ToLower(f)) == "", "*", strings.TrimSpace(strings.ToLower(f)))
 
 func (*GlobalWindow).findOutputSpec
   props C17 C04 C12
@@ -648,6 +650,7 @@ func toAggregateValue
   props C17 C04 C12
   option pure
   ensures non-null-stays-non-null: v != nil ==> result != nil
+  ensures what-reads-as-a-number-is-fed-as-that-number-anything-else-unchanged: result == ite(second(cast.ToFloat64E(v)) == nil, boxof(cast.ToFloat64E(v), float64), v)
 
 // howMany(m, n): the number of indices below n at which m holds
 recfunc howMany((m (Array Int Bool)) (n Int)) Int := (ite (<= n 0) 0 (+ (@howMany m (- n 1)) (ite (select m (- n 1)) 1 0)))
@@ -848,6 +851,7 @@ func (*SessionWindow).handleLateData
   ensures still-locked: held(sw.mu) && wheld(sw.mu)
   ensures inv: ssInv(sw)
   before triggerLateUpdateLocked late-row-joins-only-a-delivered-session-containing-it: *$arg1.slot.Start <= row.Timestamp && row.Timestamp < *$arg1.slot.End && existsv(k, "", dom(sw.triggeredSessions, k) && sw.triggeredSessions[k].session == $arg1)
+  before triggerLateUpdateLocked the-late-row-is-kept-in-the-session-before-the-session-is-delivered-again: len($arg1.data) >= 1 && $arg1.data[len($arg1.data) - 1] == row && len($arg1.data) == old(len($arg1.data)) + 1 && forall(j, 0, len($arg1.data) - 1, $arg1.data[j] == old($arg1.data[j]))
   before triggerLateUpdateLocked open-sessions-are-not-touched-by-late-data: forallv(k, "", dom(sw.sessionMap, k) <==> old(dom(sw.sessionMap, k))) && forallv(k, "", dom(sw.sessionMap, k) ==> sw.sessionMap[k] == old(sw.sessionMap[k]))
   loop 1 invariant held(sw.mu) && wheld(sw.mu) && ssInv(sw)
   loop 1 invariant forallv(k, "", dom(sw.sessionMap, k) <==> old(dom(sw.sessionMap, k))) && forallv(k, "", dom(sw.sessionMap, k) ==> sw.sessionMap[k] == old(sw.sessionMap[k]))
@@ -857,6 +861,9 @@ func (*SessionWindow).triggerLateUpdateLocked
   held sw.mu
   requires ssInv(sw)
   modifies *
+  before sendResult the-batch-delivered-again-is-the-sessions-rows-late-ones-included: seqeq($arg1, old(s.data))
+  count sent := sendResult
+  atreturn a-session-with-rows-is-delivered-again-once: $sent == ite(old(len(s.data)) == 0, 0, 1)
   ensures still-locked: held(sw.mu) && wheld(sw.mu)
   ensures inv: ssInv(sw)
 
